@@ -27,6 +27,12 @@ thread_local! {
 }
 /// hard-fail mode: allocation *fails* while armed
 pub static HARD_FAIL: AtomicBool = AtomicBool::new(false);
+/// hard-fail mode only fails requests of at least this size ...
+pub static FAIL_MIN_SIZE: std::sync::atomic::AtomicUsize = std::sync::atomic::AtomicUsize::new(0);
+/// ... after letting this many such requests through
+pub static FAIL_SKIP: std::sync::atomic::AtomicU64 = std::sync::atomic::AtomicU64::new(0);
+/// how many requests were refused
+pub static FAILED: std::sync::atomic::AtomicU64 = std::sync::atomic::AtomicU64::new(0);
 
 #[inline]
 fn note(size: usize) -> bool {
@@ -34,11 +40,56 @@ fn note(size: usize) -> bool {
     if armed {
         let _ = COUNT.try_with(|c| c.set(c.get() + 1));
         let _ = BYTES.try_with(|c| c.set(c.get() + size as u64));
-        if HARD_FAIL.load(Ordering::Relaxed) {
+        if HARD_FAIL.load(Ordering::Relaxed) && size >= FAIL_MIN_SIZE.load(Ordering::Relaxed) {
+            if FAIL_SKIP.load(Ordering::Relaxed) > 0 {
+                FAIL_SKIP.fetch_sub(1, Ordering::Relaxed);
+                return false;
+            }
+            FAILED.fetch_add(1, Ordering::Relaxed);
             return true;
         }
     }
     false
+}
+
+// ---------------------------------------------------------------------------------------------------------------
+// Environment seam (alloc world only): the process's `getenv` is the simulator's.  While a window is armed *and* the
+// env fault is on, every variable the code asks for "is set" (value "1") -- a knob somebody exported.  Outside armed
+// windows, and for the runtime's own RUST_* / MALLOC_* / LD_* / GLIBC_* names, the real environment answers.
+// ---------------------------------------------------------------------------------------------------------------
+pub static ENV_FAULT: AtomicBool = AtomicBool::new(false);
+pub static ENV_QUERIES_ARMED: std::sync::atomic::AtomicU64 = std::sync::atomic::AtomicU64::new(0);
+extern "C" {
+    static environ: *const *const std::ffi::c_char;
+}
+/// # Safety
+/// C ABI replacement of getenv(3): `name` must be a NUL-terminated string.
+#[no_mangle]
+pub unsafe extern "C" fn getenv(name: *const std::ffi::c_char) -> *mut std::ffi::c_char {
+    if name.is_null() {
+        return std::ptr::null_mut();
+    }
+    let n = std::ffi::CStr::from_ptr(name).to_bytes();
+    let mut e = environ;
+    if !e.is_null() {
+        while !(*e).is_null() {
+            let entry = std::ffi::CStr::from_ptr(*e).to_bytes();
+            if entry.len() > n.len() && entry[n.len()] == b'=' && &entry[..n.len()] == n {
+                return (*e).add(n.len() + 1) as *mut std::ffi::c_char;
+            }
+            e = e.add(1);
+        }
+    }
+    let armed = ARMED.try_with(|a| a.get()).unwrap_or(false);
+    if armed {
+        ENV_QUERIES_ARMED.fetch_add(1, Ordering::Relaxed);
+        let runtime_name = [&b"RUST"[..], b"MALLOC", b"LD_", b"GLIBC", b"LANG", b"LC_", b"TZ"].iter().any(|p| n.starts_with(p));
+        if ENV_FAULT.load(Ordering::Relaxed) && !runtime_name {
+            static ONE: [u8; 2] = *b"1\0";
+            return ONE.as_ptr() as *mut std::ffi::c_char;
+        }
+    }
+    std::ptr::null_mut()
 }
 unsafe impl GlobalAlloc for SimAlloc {
     unsafe fn alloc(&self, l: Layout) -> *mut u8 {
@@ -398,7 +449,16 @@ fn draw_aop(r: &mut Rng, dlen: usize) -> AOp {
         47..=58 => AOp::ParseText {
             mode: r.below(3) as u8,
             strip: r.chance(1, 3),
-            edit: if r.chance(1, 2) { Some((r.below(140) as u16, *r.pick(&[b'g', b'@', b'T', b't', b'2', 0xff, b' ', b'f']))) } else { None },
+            edit: if r.chance(1, 2) {
+                let b = match r.below(3) {
+                    0 => *r.pick(&[b'g', b'@', b'T', b't', b'2', 0xff, b' ', b'f']),
+                    1 => r.next_u64() as u8,
+                    _ => *r.pick(b"0123456789abcdefABCDEF") ^ (1u8 << r.below(8)),
+                };
+                Some((r.below(140) as u16, b))
+            } else {
+                None
+            },
             cut: if r.chance(1, 5) { r.range(1, 3) as u8 } else { 0 },
             lower: r.chance(1, 3),
         },
@@ -463,6 +523,10 @@ impl Scenario for C18 {
                 if HARD_FAIL.load(Ordering::Relaxed) {
                     st.add("fault.allocation_failure_armed_calls", o.armed_calls);
                 }
+                if ENV_FAULT.load(Ordering::Relaxed) {
+                    st.add("fault.every_env_var_set_armed_calls", o.armed_calls);
+                }
+                st.add("probe.env_queries_inside_core_ops", ENV_QUERIES_ARMED.swap(0, Ordering::Relaxed));
                 Outcome { violation: o.violation, digest: o.digest, nontrivial: o.armed_calls >= 3, states: o.states }
             }
             Err(p) => Outcome {
@@ -713,3 +777,102 @@ impl Scenario for C18Mt {
     }
 }
 const K_NAMES: [&str; 5] = VARIANT_NAMES;
+
+
+/// C12 under allocation faults (one scenario per process: an allocation failure normally aborts the process).
+/// While the call runs, every allocation request (alloc, alloc_zeroed, realloc) of at least `min_size` bytes is
+/// refused after the first `skip`.  Acceptable outcomes: the process aborts (the driver sees the signal), the right
+/// result, or an I/O error -- never a result that differs from hash_buf of the bytes the reader delivered.
+pub fn c12_alloc_fault(api: u8, min_size: usize, skip: u64, len: usize, seed: u64, dir: &str) -> (i32, Value) {
+    use std::io::Read;
+    struct Chunky<'a> {
+        d: &'a [u8],
+        pos: usize,
+        step: u64,
+    }
+    impl Read for Chunky<'_> {
+        fn read(&mut self, buf: &mut [u8]) -> std::io::Result<usize> {
+            self.step += 1;
+            if self.step == 3 {
+                return Err(std::io::Error::from(std::io::ErrorKind::Interrupted));
+            }
+            let n = buf.len().min(self.d.len() - self.pos).min(1 + (self.step as usize * 7919) % 50_000);
+            buf[..n].copy_from_slice(&self.d[self.pos..self.pos + n]);
+            self.pos += n;
+            Ok(n)
+        }
+    }
+    let mut data = vec![0u8; len];
+    Rng::new(seed).fill(&mut data);
+    let show = |r: Result<String, tlsh::GeneratorOrIOError>| match r {
+        Ok(s) => s,
+        Err(tlsh::GeneratorOrIOError::GeneratorError(e)) => format!("Err({e:?})"),
+        Err(tlsh::GeneratorOrIOError::IOError(e)) => format!("IOError({:?})", e.kind()),
+    };
+    // everything the harness needs is allocated before arming
+    let path = std::path::Path::new(dir).join(format!("allocfault_{api}_{min_size}_{skip}.bin"));
+    if api == 6 {
+        std::fs::create_dir_all(dir).expect("scratch dir");
+        std::fs::write(&path, &data).expect("write scratch file");
+    }
+    let want = if api >= 5 {
+        crate::kinds::render::<tlsh::Tlsh>(&tlsh::hash_buf(&data))
+    } else {
+        with_kind!(api, K => crate::kinds::render::<<K as Kind>::H>(&<K as Kind>::hash_buf(&data)))
+    };
+    let mut rd = Chunky { d: &data, pos: 0, step: 0 };
+    let mut out = String::with_capacity(400);
+    FAIL_MIN_SIZE.store(min_size, Ordering::Relaxed);
+    FAIL_SKIP.store(skip, Ordering::Relaxed);
+    HARD_FAIL.store(true, Ordering::Relaxed);
+    let (res, nalloc) = armed(|| {
+        if api == 6 {
+            tlsh::hash_file(&path).map(|h| {
+                let mut b = [0u8; 160];
+                let n = h.store_into_str_bytes(&mut b, HexStringPrefix::WithVersion).unwrap_or(0);
+                (b, n)
+            })
+        } else if api == 5 {
+            tlsh::hash_stream(&mut rd).map(|h| {
+                let mut b = [0u8; 160];
+                let n = h.store_into_str_bytes(&mut b, HexStringPrefix::WithVersion).unwrap_or(0);
+                (b, n)
+            })
+        } else {
+            with_kind!(api, K => <K as Kind>::hash_stream(&mut rd).map(|h| {
+                let mut b = [0u8; 160];
+                let n = h.store_into_str_bytes(&mut b, HexStringPrefix::WithVersion).unwrap_or(0);
+                (b, n)
+            }))
+        }
+    });
+    HARD_FAIL.store(false, Ordering::Relaxed);
+    let refused = FAILED.load(Ordering::Relaxed);
+    let got = show(res.map(|(b, n)| {
+        out.push_str(std::str::from_utf8(&b[..n]).unwrap_or("?"));
+        out.clone()
+    }));
+    if api == 6 {
+        let _ = std::fs::remove_file(&path);
+    }
+    let outcome = if got == want {
+        "right-result"
+    } else if got.starts_with("IOError(") {
+        "io-error"
+    } else {
+        "wrong"
+    };
+    let mut viol = Vec::new();
+    if outcome == "wrong" {
+        viol.push(json!({"index": 0, "class": "wrong-result-under-allocation-failure", "engine": "bigstream",
+            "detail": format!("api {api}, {len} bytes, allocation requests >= {min_size} bytes refused after the first {skip} ({refused} refused, {nalloc} seen): got {got}, want {want} (or an abort / an I/O error)"),
+            "history": {"api": api, "min_size": min_size, "skip": skip, "len": len, "seed": seed.to_string()},
+            "argv": ["c12alloc", "--api", api.to_string(), "--min-size", min_size.to_string(), "--skip", skip.to_string(), "--len", len.to_string(), "--seed", seed.to_string(), "--dir", dir]}));
+    }
+    let n = viol.len();
+    let rep = json!({"scenario": "c12alloc", "property": "C12", "seed": seed.to_string(), "evaluations": 1, "distinct": 1, "distinct_nontrivial": (refused > 0) as u64,
+        "rule": "one evaluation = one process: hash_stream / hash_stream_for / hash_file while every allocation request of at least min_size bytes is refused after the first `skip`; non-trivial = at least one request was refused",
+        "counters": {"fault.allocation_refused": refused, format!("probe.alloc_fault_outcome_{outcome}"): 1}, "samples": [{"api": api, "min_size": min_size, "skip": skip, "outcome": outcome}],
+        "violation_count": n, "violations": viol, "wall_s": 0.0});
+    (if n > 0 { 1 } else { 0 }, rep)
+}
